@@ -590,3 +590,84 @@ func (c *Ctx) RuleNoOtherGlobals(fn *ssa.Function, allowed map[string]bool) {
 func inRepoPkg(p *ssa.Package) bool {
 	return p != nil && strings.HasPrefix(p.Pkg.Path(), "go.lstv.dev/util")
 }
+
+// RuleTypedErrors (S-WRAP ii): every possibly non-nil error a parser-level function returns is the package's
+// typed parse error (a MakeInterface of *<errType>[T]) or the error result of an in-repo callee for which the
+// same holds.
+func (c *Ctx) RuleTypedErrors(rule string, fn *ssa.Function, errType string) {
+	c.typedErrors(rule, fn, errType, map[*ssa.Function]bool{})
+}
+
+func (c *Ctx) typedErrors(rule string, fn *ssa.Function, errType string, seen map[*ssa.Function]bool) {
+	if seen[fn] {
+		return
+	}
+	seen[fn] = true
+	n, bad := 0, 0
+	var check func(v ssa.Value, pos token.Pos, depth int)
+	check = func(v ssa.Value, pos token.Pos, depth int) {
+		if isNilConst(v) || depth > 6 {
+			return
+		}
+		switch x := v.(type) {
+		case *ssa.MakeInterface:
+			n++
+			t := x.X.Type()
+			if p, ok := t.(*types.Pointer); ok {
+				t = p.Elem()
+			}
+			if nt, ok := t.(*types.Named); ok && nt.Obj().Name() == errType && nt.Obj().Pkg() == fn.Pkg.Pkg {
+				return
+			}
+			bad++
+			c.addc("violated", rule, fn, pos, "error type", "returns an error of type "+types.TypeString(x.X.Type(), nil)+" instead of the package's typed "+errType, "")
+		case *ssa.Extract:
+			call, ok := x.Tuple.(*ssa.Call)
+			if !ok {
+				n++
+				bad++
+				c.addc("undecided", rule, fn, pos, "error origin", "error extracted from a non-call tuple", "")
+				return
+			}
+			callee := c.StaticCallee(&call.Call)
+			if callee == nil || !inRepo(callee) {
+				n++
+				bad++
+				name := "a dynamic callee"
+				if callee != nil {
+					name = callee.String()
+				}
+				c.addc("violated", rule, fn, pos, "error origin", "passes the untyped error of "+name+" through instead of wrapping it in "+errType, "")
+				return
+			}
+			c.typedErrors(rule, callee, errType, seen)
+		case *ssa.Phi:
+			for _, e := range x.Edges {
+				check(e, pos, depth+1)
+			}
+		case *ssa.UnOp:
+			// load of a named result spilled because of defer, or of a sentinel global
+			n++
+			bad++
+			c.addc("violated", rule, fn, pos, "error origin", "returns a bare error value (sentinel or variable) instead of the typed "+errType, "")
+		default:
+			n++
+			bad++
+			c.addc("undecided", rule, fn, pos, "error origin", fmt.Sprintf("error operand of unrecognised origin %T", v), "")
+		}
+	}
+	for _, b := range fn.Blocks {
+		ret, ok := b.Instrs[len(b.Instrs)-1].(*ssa.Return)
+		if !ok || len(ret.Results) == 0 {
+			continue
+		}
+		e := ret.Results[len(ret.Results)-1]
+		if !isErrorType(e.Type()) {
+			continue
+		}
+		check(e, ret.Pos(), 0)
+	}
+	if bad == 0 {
+		c.addc("discharged", rule, fn, fn.Pos(), "error type", fmt.Sprintf("every non-nil error returned is the typed %s (%d construction site(s)) or comes from a callee checked by this rule", errType, n), "")
+	}
+}
